@@ -189,6 +189,21 @@ inline void check_acquired(const HeldSnap& before, bool nonnull, bool shared_mod
         gsim::fail("lock_without_handle", "%s returned a null handle but the calling thread now "
                    "holds exclusive %+d / shared %+d more locks", what, dex, dsh);
 }
+inline void check_released(const HeldSnap& before, const char* what);
+
+/// unlock() on a null handle (failed try / timed acquisition) must be harmless:
+/// in particular it must not release the lock somebody else holds (the simulated
+/// mutex reports an unlock by a non-owner as `bad_unlock`)
+template<class H>
+void null_handle_unlock(H& h, const HeldSnap& before, gsim::Op op)
+{
+    if ((op.b % 5) != 1 && (op.b % 5) != 3) return;
+    h.unlock();
+    if (h) gsim::fail("unlock_not_null", "a null handle tests true after unlock()");
+    check_released(before, "unlock() of a null handle");
+    gsim::probe("null_handle.unlock");
+}
+
 inline void check_released(const HeldSnap& before, const char* what)
 {
     if (!G->oracle_handle) return;
@@ -528,7 +543,10 @@ struct Exec {
                         }();
                         check_acquired(b, (bool)h, false, false, "try_lock()");
                         if (h) excl_lifecycle(h, b, op, [&] { return G_aux<W>->lock(); });
-                        else gsim::probe("try_lock.null");
+                        else {
+                            gsim::probe("try_lock.null");
+                            null_handle_unlock(h, b, op);
+                        }
                     }
                     check_released(b, "destruction of an exclusive handle");
                 }
@@ -546,7 +564,10 @@ struct Exec {
                         check_timed(t0, d, false, "try_lock_for");
                         check_acquired(b, (bool)h, false, false, "try_lock_for()");
                         if (h) excl_lifecycle(h, b, op, [&] { return G_aux<W>->lock(); });
-                        else gsim::probe("try_lock_for.null");
+                        else {
+                            gsim::probe("try_lock_for.null");
+                            null_handle_unlock(h, b, op);
+                        }
                     }
                     check_released(b, "destruction of an exclusive handle");
                 }
@@ -566,7 +587,10 @@ struct Exec {
                         check_timed(t0, d, true, "try_lock_until");
                         check_acquired(b, (bool)h, false, false, "try_lock_until()");
                         if (h) excl_lifecycle(h, b, op, [&] { return G_aux<W>->lock(); });
-                        else gsim::probe("try_lock_until.null");
+                        else {
+                            gsim::probe("try_lock_until.null");
+                            null_handle_unlock(h, b, op);
+                        }
                     }
                     check_released(b, "destruction of an exclusive handle");
                 }
@@ -603,7 +627,10 @@ struct Exec {
                         }();
                         check_acquired(b, (bool)h, true, sharedm, "try_lock_shared()");
                         if (h) shared_lifecycle(h, b, op, [&] { return static_cast<const W*>(G_aux<W>)->lock_shared(); });
-                        else gsim::probe("try_lock_shared.null");
+                        else {
+                            gsim::probe("try_lock_shared.null");
+                            null_handle_unlock(h, b, op);
+                        }
                     }
                     check_released(b, "destruction of a shared handle");
                 }
@@ -621,7 +648,10 @@ struct Exec {
                         check_timed(t0, d, false, "try_lock_shared_for");
                         check_acquired(b, (bool)h, true, sharedm, "try_lock_shared_for()");
                         if (h) shared_lifecycle(h, b, op, [&] { return static_cast<const W*>(G_aux<W>)->lock_shared(); });
-                        else gsim::probe("try_lock_shared_for.null");
+                        else {
+                            gsim::probe("try_lock_shared_for.null");
+                            null_handle_unlock(h, b, op);
+                        }
                     }
                     check_released(b, "destruction of a shared handle");
                 }
@@ -641,7 +671,10 @@ struct Exec {
                         check_timed(t0, d, true, "try_lock_shared_until");
                         check_acquired(b, (bool)h, true, sharedm, "try_lock_shared_until()");
                         if (h) shared_lifecycle(h, b, op, [&] { return static_cast<const W*>(G_aux<W>)->lock_shared(); });
-                        else gsim::probe("try_lock_shared_until.null");
+                        else {
+                            gsim::probe("try_lock_shared_until.null");
+                            null_handle_unlock(h, b, op);
+                        }
                     }
                     check_released(b, "destruction of a shared handle");
                 }
